@@ -525,6 +525,16 @@ def gen_program(st, flavour, tier):
                                   "on": rk.choice(["all", "all", "rule", "datasource", "parser", "plugin"]),
                                   "raises": fl["observers"] > 1 and rf.random() < 0.4,
                                   "glob": rk.random() < 0.3, "nameless": rk.random() < 0.3})
+    if flavour == "C03":
+        # a deny-listed spec usually has several implementations that hit the same deny entry: when one implementation of
+        # a registry point is refused, a sibling often is too (the process-wide list of refused spec names then already
+        # holds the name when the second one is recorded)
+        for nd in nodes:
+            if nd["type"] == "rp" and len(nd.get("impls", [])) >= 2 and any(nodes[j]["out"] == "blk" for j in nd["impls"]):
+                for j in nd["impls"]:
+                    if nodes[j]["out"] != "blk" and rf.random() < 0.6:
+                        nodes[j]["out"] = "blk"
+                        nodes[j]["work"] = 0.0
     if flavour == "C03" and rf.random() < 0.08:
         # ONE exception object surfacing in several components (a lazily loading provider keeps the exception of its
         # failed load and re-raises the same object to every consumer): each of them raised it, each is accountable
